@@ -152,7 +152,9 @@ def table(D, E, full):
     # generators
     for st in range(-3, 5):
         for sp in range(-3, 7):
-            for step in (-3, -2, -1, 1, 2, 3): out.append(C("arange", [], start=st, stop=sp, step=step))
+            for step in (-3, -2, -1, 1, 2, 3):
+                out.append(C("arange", [], start=st, stop=sp, step=step))
+                if (st + sp + step) % 3 == 0: out.append(C("arange", [], start=st, stop=sp, step=step, dtype="float"))     # the default element type
             if sp >= st: out.append(C("arange2", [], start=st, stop=sp))
     for sp in range(0, 8): out.append(C("arange1", [], stop=sp))
     # large ranges (the view is lazy): length and the first / middle / last element
